@@ -17,7 +17,7 @@ var (
 )
 
 func removeFromWorkingTree(path string) error {
-	if _, err := os.Stat(path); !os.IsNotExist(err) {
+	if _, err := os.Stat(path); err == nil { // a path below a regular file (ENOTDIR) is not in the working tree
 		if err := os.Remove(path); err != nil {
 			return fmt.Errorf("fail to delete %s from the working tree: %w", path, err)
 		}
